@@ -124,9 +124,10 @@ package tree
 //@ func (*Iblt).bucketIndices
 //@   prop C08 C19
 //@   safety
+//@   ints math
 //@   requires 0 < len(i.buckets) && len(i.buckets) <= 4294967295
-//@   loop 1 invariant forall j int :: 0 <= j && j < len(indices) ==> int(indices[j]) < len(i.buckets)
-//@   ensures [indices-in-range] forall j int :: 0 <= j && j < len(result) ==> int(result[j]) < len(i.buckets)
+//@   loop 1 invariant forall j int :: 0 <= j && j < len(indices) ==> indices[j] < uint32(len(i.buckets))
+//@   ensures [indices-in-range] forall j int :: 0 <= j && j < len(result) ==> result[j] < uint32(len(i.buckets))
 //@   ensures [receiver-unchanged] len(i.buckets) == old(len(i.buckets))
 
 //@ func (*Iblt).Insert
